@@ -127,16 +127,16 @@ Mut(x, m) == CASE m.t = "cut" -> SubSeq(x, 1, m.k)
                [] m.t = "swap" -> [x EXCEPT ![m.k] = m.b]
                [] OTHER -> x
 \* swaps that make byte k the first offending byte in EVERY reading: a closing bracket by the other one, ',' <-> ':' (JSON only)
-SwapOK(x, m) == /\ m.k \in 1..Len(x)
-                /\ \E i \in 1..Len(Tokens(x)) : LET t == Tokens(x)[i] IN
-                     t.s = m.k /\ ((t.k = "]" /\ m.b = 125) \/ (t.k = "}" /\ m.b = 93) \/ (t.k = "," /\ m.b = 58) \/ (t.k = ":" /\ m.b = 44))
+\* (ts = Tokens(x), ev = EventTokens(x): passed in so that they are computed once)
+SwapOK(ts, m) == \E i \in 1..Len(ts) : LET t == ts[i] IN
+                   t.s = m.k /\ ((t.k = "]" /\ m.b = 125) \/ (t.k = "}" /\ m.b = 93) \/ (t.k = "," /\ m.b = 58) \/ (t.k = ":" /\ m.b = 44))
 \* the boundary: tokens with e <= B lie wholly before the point of the error
 Boundary(m) == IF m.t = "cut" THEN m.k + 1 ELSE m.k
-Definite(x, m) == SelectSeq(EventTokens(x), LAMBDA t : t.e <= Boundary(m))
+Definite(ev, m) == SelectSeq(ev, LAMBDA t : t.e <= Boundary(m))
 \* the token a cut falls into (<<>> if none): it may complete into ONE more event in some valid completion
-Partial(x, m) == IF m.t # "cut" THEN <<>> ELSE SelectSeq(EventTokens(x), LAMBDA t : t.s <= m.k /\ t.e > m.k + 1)
-OpenAt(x, m) == LET d == Definite(x, m) IN
-                Cardinality({i \in 1..Len(d) : d[i].k \in {"{", "["}}) - Cardinality({i \in 1..Len(d) : d[i].k \in {"}", "]"}})
+Partial(ev, m) == IF m.t # "cut" THEN <<>> ELSE SelectSeq(ev, LAMBDA t : t.s <= m.k /\ t.e > m.k + 1)
+OpenAt(ev, m) == LET d == Definite(ev, m) IN
+                 Cardinality({i \in 1..Len(d) : d[i].k \in {"{", "["}}) - Cardinality({i \in 1..Len(d) : d[i].k \in {"}", "]"}})
 
 \* ------------------------------------------------------------------ 4. numbers: which callback, which value
 \* cls = "int" | "float" | "number"; lit = JsonValue!PNum(..).v.   Strict where every reading agrees:
